@@ -227,6 +227,7 @@ def new_run(seed):
     build a Sim."""
     global _serials
     RNG.reseed(seed)
+    ADDRESSES[:] = ["127.0.0.1", "10.1.0.1"]
     SIMTIME._last = 0.0
     # restart serial numbering so hashes do not depend on earlier runs
     _serials = itertools.count(1)
